@@ -159,3 +159,31 @@ theorem stepCD_fault (s : Shared) (cd : CD) (hf : s.fault = none) :
   · right; rw [setFault_fault_of_none _ _ (by simpa using hf)]
 
 end M
+
+namespace M
+
+theorem setNode_fast (s : Shared) (n m : Nat) (f : Node → Node) (hf : ∀ nd, (f nd).fast = nd.fast) :
+    ((s.setNode n f).nodes m).fast = (s.nodes m).fast := by
+  by_cases hm : m = n
+  · subst hm; simp [hf]
+  · simp [hm]
+theorem setNode_hslot (s : Shared) (n m : Nat) (f : Node → Node) (hf : ∀ nd, (f nd).hslot = nd.hslot) :
+    ((s.setNode n f).nodes m).hslot = (s.nodes m).hslot := by
+  by_cases hm : m = n
+  · subst hm; simp [hf]
+  · simp [hm]
+theorem setNode_control (s : Shared) (n m : Nat) (f : Node → Node) (hf : ∀ nd, (f nd).control = nd.control) :
+    ((s.setNode n f).nodes m).control = (s.nodes m).control := by
+  by_cases hm : m = n
+  · subst hm; simp [hf]
+  · simp [hm]
+theorem setNode_envelope (s : Shared) (n m : Nat) (f : Node → Node) (hf : ∀ nd, (f nd).envelope = nd.envelope) :
+    ((s.setNode n f).nodes m).envelope = (s.nodes m).envelope := by
+  by_cases hm : m = n
+  · subst hm; simp [hf]
+  · simp [hm]
+
+theorem ite_setFault_nodes2 (x : Shared) (c : Prop) [Decidable c] (f : Fault) :
+    (if c then x else x.setFault f).nodes = x.nodes := by split <;> simp
+
+end M
